@@ -479,7 +479,7 @@ def concurrent_scenario(res, tag, single, k, rng, rounds):
         for rnd in range(rounds):
             clients = []
             for c in range(k):
-                blk = rng.choice([8, 9, 16, 512])
+                blk = rng.choice([8, 9, 16, 512, 1024, 1468])
                 w = rng.choice([1, 1, 2, 3, 4])
                 opts = rng.choice([[], [("blksize", blk)], [("blksize", blk), ("windowsize", w)], [("windowsize", w)]])
                 eff_blk = blk if any(o[0] == "blksize" for o in opts) else 512
@@ -509,6 +509,21 @@ def concurrent_scenario(res, tag, single, k, rng, rounds):
                     sid += 3
                 live = [c for c in clients if not c.done]
             X.server_outcomes(srv, clients)
+            # an endpoint whose transfer is over owns nothing any more: its late packets at the
+            # listening port must be refused like any foreign endpoint's
+            for c in clients:
+                if c.started and rng.random() < 0.5:
+                    pkt = rng.choice([NET.ack(1), NET.data(1, b"late"), NET.error(0)])
+                    c.sock.sendto(pkt, (NET.HOST, srv.port))
+                    b, addr = NET.recv_reply(c.sock, 0.3)
+                    if b is None:
+                        b, addr = NET.recv_reply(c.sock, 1.0)
+                    r = NET.parse(b) if b else {"k": "none"}
+                    sid += 1
+                    req_events.append({"e": "req", "sid": sid, "bytes": NET.codes(pkt), "known": False, "tried": False,
+                                       "completed": False, "up": "", "delta": [], "probe": False,
+                                       "reply": {"k": r["k"], "code": r.get("code", 0)} if r["k"] == "error" else {"k": r["k"]},
+                                       "from": ("listener" if addr and addr[1] == srv.port else "worker") if b else "na"})
             for c in clients:
                 xfer_events += c.events
                 if not c.finished_ok:
@@ -541,7 +556,15 @@ def c12(res):
     for single in (False, True):
         tag = "concurrent-%s" % ("single" if single else "multi")
         xe, re_, alive = concurrent_scenario(res, tag, single, k=5 if q else 16, rng=rng, rounds=6 if q else 20)
+        before = dict(res.drift)
         judge_transfers(res, xe, tag)
+        # isolation IS "every client's projection is a behaviour of a lone transfer of its own file":
+        # whatever else a deviation in these traces breaks, it breaks that
+        for label, cnt in res.drift.items():
+            if cnt > before.get(label, 0):
+                res.add_violation("ConcurrentTransfer:%s|%s" % (label, tag),
+                                  "C12: %d client projection(s) in %s are not lone transfers of their own file (%s)" % (cnt - before.get(label, 0), tag, label),
+                                  {"kind": "net-scenario", "label": label, "seed": C.seed()})
         # intruder exchanges: Trace_Requests (foreign packets must get ERROR 4 from the listener)
         sbdevs = judge_net_trace(res, [e for e in re_ if e.get("e") in ("cfg", "req")], tag + "-intruder")
         for e in re_:
@@ -919,11 +942,22 @@ def c14(res):
                 if direction == "download":
                     with open(os.path.join(sb.send, name), "wb") as f:
                         f.write(content)
-                tmo = rng.choice([1, 5, 255])
+                tmo = rng.choice([1, 1, 2, 5, 255 if nb <= 2 else 3])
+                if sum(1 for f in finals if f["timed_out"]) >= 3:
+                    break       # something is badly wrong; three stalled runs say enough
                 se, ce, fin = IO.one_run(srv, sb, work, direction, name, content, blk, w, tmo,
                                          "%s-%s-b%d-w%d-n%d" % ("s" if single else "m", direction, blk, w, nb))
                 xfer_events += se + ce
                 finals.append(fin)
+            # one transfer across the block-number wrap with a window that straddles it
+            if not single or not q:
+                wrapc = X.make_file(65540, 8, 5)
+                open(os.path.join(sb.send, "wrap.bin"), "wb").write(wrapc)
+                for direction in (("download",) if q else ("download", "upload")):
+                    se, ce, fin = IO.one_run(srv, sb, work, direction, "wrap.bin", wrapc, 8, 2 if q else 4, 1, "wrap-%s" % direction,
+                                             run_timeout=90)
+                    xfer_events += se + ce
+                    finals.append(fin)
             # path conventions and refusals
             nested = X.make_file(3, 512, 100)
             os.makedirs(os.path.join(sb.send, "dir", "sub"), exist_ok=True)
